@@ -4,6 +4,7 @@
 From Coq Require Import List Bool NArith String.
 From PC Require Import Base.Cmp Base.Result Model.Pep440 Spec.Pep440Spec Spec.Specifier Model.VConstraint
      Proofs.VersionFacts Proofs.RangeSpec Proofs.SpecifierAgree.
+From PC Require Import Proofs.UnionHull Proofs.UnionExact Proofs.InterExact Proofs.ParseCompose.
 Import ListNotations.
 Open Scope string_scope.
 
@@ -48,5 +49,31 @@ Example C04_desugar :
      is_final l = true /\ wf l = true).
 Proof. eexists. repeat split; vm_compute; reflexivity. Qed.
 
-(* Not yet theorems (decided by the correspondence run and the reference oracle only): '!=', '~=',
-   '==X.*', '!=X.*', comma-joined sets, '^', '~', '||'. *)
+(* Not yet theorems at clause level (decided by the correspondence run and the reference oracle only): '!=', '~=',
+   the wildcard clauses, '^', '~' (for ^ and ~ see C15). *)
+
+(* Proved by composition (every comma set of range-like clauses, every '||' of groups): what _parse_constraint builds from the
+   clause lists means the conjunction of the clauses of a group and the disjunction of the groups, for every regular
+   candidate, in the implementation's member-by-member membership [sem].  [simple]: the parsed clause is a single version,
+   a range or empty (the clauses >=, >, <, <=, ==, ^, ~, ~= and positive wildcards), not a union (the clauses != and negated wildcards); [goodc]: bounds well-formed, proper, without
+   local label.  Together with the clause theorems above this gives comma sets and '||' their PEP 440 / poetry meaning.
+   Not covered: comma sets that contain a union-valued clause (!=), which need the members of intermediate unions to stay
+   sorted and apart (run-time hypothesis of C05_intersect_exact). *)
+Theorem C04_comma_set : forall m clauses g, parse_group m clauses = Ok g ->
+  exists cs, mapR (parse_single_pep m) clauses = Ok cs /\
+    (forallb goodc cs = true -> forallb simple cs = true ->
+     goodc g = true /\ simple g = true /\
+     forall v, wf v = true -> regular_for v cs = true -> sem g v = forallb (fun x => sem x v) cs).
+Proof. exact parse_group_meaning. Qed.
+Print Assumptions C04_comma_set.
+Theorem C04_or_groups : forall m groups c, parse_constraint_groups m groups = Ok c ->
+  exists gs, mapR (parse_group m) groups = Ok gs /\
+    (forallb goodc gs = true ->
+     goodc c = true /\ forall v, wf v = true -> regular_for v gs = true -> sem c v = existsb (fun x => sem x v) gs).
+Proof. exact parse_groups_meaning. Qed.
+Print Assumptions C04_or_groups.
+Example C04_compose_example :
+  exists g cs, parse_group false [">=1.0"; "<2.0"; "~=1.4"]%string = Ok g /\
+    mapR (parse_single_pep false) [">=1.0"; "<2.0"; "~=1.4"]%string = Ok cs /\
+    forallb goodc cs = true /\ forallb simple cs = true /\ vc_str g = Ok ">=1.4,<2.0"%string.
+Proof. do 2 eexists. repeat split; vm_compute; reflexivity. Qed.
